@@ -7,11 +7,19 @@ post-processing (`lanczos_tridiag_to_diag`, `RootDecomposition.forward`), over a
 square root, for every size `n`, every budget `max_iter`, every start vector and every self-adjoint closure.
 "No breakdown" is the hypothesis `BetaOK`: the off-diagonal entries of the RETURNED `T` are non-zero
 (nothing is assumed about the entry that made the loop stop, which is trimmed away).
+
+Multi-column calls: `LinOp.C09.lanczosMulti` (C09/Multi.lean) runs all columns of one call in ONE loop as the code does
+(shared counter, the two `torch.sum` tests over all columns); `lanczos_multi_column_prefix` lifts the single-column
+theorems to every column of the coupled run, on the prefix before that column's own breakdown; `lanczos_multi_one_column`
+shows that one column of the coupled model is the single-column model.  End-to-end statements about `lanczosTridiag` on the
+closure of a symmetric matrix (`amulOf A`), with no free `Q`, `T`: `lanczos_tridiag_matrix_identities`,
+`lanczos_tridiag_root`, `lanczos_tridiag_root_inv`.
 -/
 import LinOp.C09.ProofsRun
 import LinOp.C09.ProofsPost
 import LinOp.C09.ProofsScale
 import LinOp.C09.ProofsMulti
+import LinOp.C09.ProofsMultiOne
 import LinOp.C09.ProofsCompose
 import LinOp.Generated.C09Consts
 
@@ -332,6 +340,27 @@ theorem lanczos_tridiag_root (hs : SqrtLaw ops) {A : Matrix (Fin n) (Fin n) K} (
   refine ⟨hroot, fun hn => ?_⟩
   rw [hroot, QQt_of_card _ hn hQ, Matrix.one_mul, Matrix.mul_one]
 
+/-- END-TO-END inverse root: same composition for `inverse = q_mat / root_evals`, with an orthogonal eigendecomposition
+of the jittered `T` and positive Ritz values: `R⁻ R⁻ᵀ = Q (T + j·1)⁻¹ Qᵀ`, and `= (A + j·1)⁻¹` when `count = n`. -/
+theorem lanczos_tridiag_root_inv (hs : SqrtLaw ops) {A : Matrix (Fin n) (Fin n) K} (hA : Aᵀ = A)
+    (maxIter : Nat) (v : Vec K n) (hv : fn v ⬝ᵥ fn v ≠ 0) (hg : p.guardsSingle = true) (h1 : 1 ≤ min maxIter n)
+    (jit : K) :
+    ∃ o, lanczosTridiag ops p (amulOf A) maxIter v = .ok o ∧
+      (BetaOK (o.count - 1) o.st →
+        ∀ (V : Matrix (Fin o.count) (Fin o.count) K) (θ : Fin o.count → K),
+          V * Matrix.diagonal θ * Vᵀ = Matrix.of (jitteredT ltb jit o.T) → Vᵀ * V = 1 → (∀ j, 0 < θ j) →
+          lanczosRootInv ops (Matrix.of o.Q) V θ * (lanczosRootInv ops (Matrix.of o.Q) V θ)ᵀ
+            = Matrix.of o.Q * (Matrix.of (jitteredT ltb jit o.T))⁻¹ * (Matrix.of o.Q)ᵀ ∧
+          (o.count = n →
+            lanczosRootInv ops (Matrix.of o.Q) V θ * (lanczosRootInv ops (Matrix.of o.Q) V θ)ᵀ
+              = (A + jitterOf ltb jit o.T • (1 : Matrix (Fin n) (Fin n) K))⁻¹)) := by
+  obtain ⟨o, ho, h1', h3, hT, hd⟩ := lanczos_ok (p := p) hs (selfAdj_amulOf hA) hg maxIter v hv h1
+  refine ⟨o, ho, fun hb V θ hE hV hθ => ?_⟩
+  obtain ⟨hQ, hP, _, _, _, _⟩ := matrix_identities_of_done hA o h1' hT (hd hb)
+  exact ⟨LinOp.C09.lanczos_root_inv ops hs.mul_self (Matrix.of o.Q) V _ θ hθ hV hE,
+    fun hn => root_inv_full_of_card ops hs.mul_self (Matrix.of o.Q) A (Matrix.of o.T) V θ (jitterOf ltb jit o.T)
+      hn hQ hP hV hE hθ⟩
+
 /-! ### the coupled multi-column loop (`lanczosMulti`: all columns of one call in ONE loop) -/
 
 /-- LIFT of the single-column theorems through the coupled loop.  `C` columns (batch members × init vectors), each with
@@ -410,6 +439,14 @@ theorem multi_extra_passes_fixed {C : Nat} (hs : SqrtLaw ops) (tol : K) (k : Nat
     (h0 : ∀ j, j ≤ k → fn (qs[c].get j) ⬝ᵥ fn rs[c] = 0) (h1 : fn rs[c] ⬝ᵥ fn rs[c] = 1) :
     (extraPassesM ops tol (k + 1) qs fuel rs).1[c] = rs[c] :=
   extraPassesM_fixed hs tol k qs c fuel rs h0 h1
+
+/-- The coupled model restricted to ONE column is the single-column model: same `count`, same buffers, same number of
+extra passes (a program equivalence, for every scalar type — also the `Float` of the driver); so the single-column
+theorems above are the `C = 1` case of the coupled ones and both correspondences tie the same definitions. -/
+theorem lanczos_multi_one_column (hg : p.guardsSingle = true) (maxIter : Nat) (v : Vec K n) :
+    (lanczosMulti ops p (fun _ : Fin 1 => amul) maxIter #v[v]).map (fun o => o.col 0)
+      = lanczosTridiag ops p amul maxIter v :=
+  lanczosMulti_one ops p hg amul maxIter v
 
 /-- `mins = min(diag t_mat)` of the jitter statements (`minDiag`): a lower bound of the diagonal, attained on it
 (so the jitter is `tridiagonal_jitter ×` an actual diagonal entry, the smallest one); the default only for `0 × 0`. -/
